@@ -100,9 +100,9 @@ def _wrap(conn_or_addr, layer, idx):
     if kind == "markers2":
         return H.HttpConn(conn_or_addr, adapters=[_mk_marker(f"m{idx}a"), _mk_marker(f"m{idx}b")])
     if kind == "basic":
-        return H.BAuthConn(conn_or_addr, "us:er", "p@ss")
+        return H.BAuthConn(conn_or_addr, "us:er", "p@~ss?")
     if kind == "client":
-        return H.ClientAuthConn(conn_or_addr, "cname", "cid", "csecret")
+        return H.ClientAuthConn(conn_or_addr, "cname", "cid", "c~secre?")
     if kind == "token":
         return H.TokenAuthConn(conn_or_addr, "tok123", "descr")
     if kind == "plain":
@@ -120,9 +120,9 @@ def _layer_model(layer, idx):
     if kind == "markers2":
         return [("mark", f"m{idx}a"), ("mark", f"m{idx}b")]
     if kind == "basic":
-        return [("auth", "Basic", "us:er:p@ss")]
+        return [("auth", "Basic", "us:er:p@~ss?")]
     if kind == "client":
-        return [("auth", "Basic", "cid:csecret")]
+        return [("auth", "Basic", "cid:c~secre?")]
     if kind == "token":
         return [("auth", "Bearer", "tok123")]
     return []
@@ -182,7 +182,11 @@ def check_request(req, resp, exp, what: str) -> None:
         v = v.decode() if isinstance(v, bytes) else v
         scheme_, _, val = v.partition(" ")
         _, escheme_, cred = exp["auth"][0]
-        dec = base64.b64decode(val).decode() if scheme_ == "Basic" else val
+        try:
+            # credentials are chosen so that their base64 form contains '+' and '/' (the characters in which alphabets differ)
+            dec = base64.b64decode(val, validate=True).decode() if scheme_ == "Basic" else val
+        except ValueError as e:
+            raise Violation(f"auth-value :: {what}: Authorization {v!r} is not standard base64: {e}")
         if scheme_ != escheme_ or dec != cred:
             raise Violation(f"auth-value :: {what}: Authorization {v!r} does not carry {escheme_} {cred!r}")
     if items.get("x-trace", "") != exp["trace"]:
@@ -377,8 +381,8 @@ def _run_history(steps) -> None:
                 callers.append(c.clone())
                 models.append(list(m))
             elif op == "cloneB":
-                callers.append(c.clone(H.BAuthConn.Adapter("us:er", "p@ss")))
-                models.append([("auth", "Basic", "us:er:p@ss")] + m)
+                callers.append(c.clone(H.BAuthConn.Adapter("us:er", "p@~ss?")))
+                models.append([("auth", "Basic", "us:er:p@~ss?")] + m)
             elif op == "wrapconn":
                 conn = H.HttpConn(c.http_conn, adapters=[_mk_marker(f"w{si}")])
                 callers.append(cls(conn))
